@@ -6,6 +6,7 @@ import (
 	"runtime"
 	"runtime/debug"
 	"sort"
+	"strings"
 	"sync"
 	"time"
 
@@ -126,7 +127,7 @@ func c40(r *vkit.Run) {
 		return
 	}
 
-	n := r.N(5000, 150000)
+	n := r.N(4000, 60000)
 	if v := os.Getenv("VSPDY_N"); v != "" { // development only
 		fmt.Sscan(v, &n)
 	}
@@ -179,7 +180,11 @@ func c40(r *vkit.Run) {
 // c40Epilogue: process-wide checks after all connections are over.
 func c40Epilogue(r *vkit.Run, base int) {
 	for _, p := range bfe_spdy.VerifPanics() {
-		r.Violation(vkit.PanicSig([]byte(p.Stack)), "serve goroutine panicked: "+p.Value,
+		st := p.Stack
+		if i := strings.Index(st, "\npanic("); i >= 0 { // drop the frames of the recording hook itself
+			st = st[i:]
+		}
+		r.Violation(vkit.PanicSig([]byte(st)), "serve goroutine panicked: "+p.Value,
 			map[string]interface{}{"conn": p.Remote, "panic": p.Value, "stack": p.Stack})
 	}
 	st := bfe_spdy.GetSpdyState()
